@@ -936,6 +936,24 @@ def _f117(vio):
         det.get("names") == [det.get("where")] and vio.get("kind") in ("unexpected-error", "wrong-value")
 
 
+@mechanism("F118-type-parser-unsupported-constructs")
+def _f118(vio):
+    """ak.types.from_datashape (the type-string parser added in 1.4.0) does not read back everything Type::tostring
+    prints: named tuples `Name[T, ...]`, the long form `option[...]` of an option type (AssertionError), empty records/tuples, datetime64 /
+    timedelta64 / complex leaves, parameters holding floating-point numbers, escaped characters in strings"""
+    import re
+    det = vio.get("detail") or {}
+    if det.get("lane") != "P" or not vio.get("kind", "").startswith(("type-string", "parsed-type")):
+        return False
+    if vio.get("kind") == "type-string-not-parsed":
+        return True        # the grammar is incomplete: a refusal is this mechanism whatever construct triggers it
+    t = det.get("type") or ""
+    feats = [re.search(r"\b[A-Za-z_]\w*\[(?![\"\[])(?!type=)", re.sub(r"\b(option|union|categorical|struct|tuple)\[", "(", t)),
+             "option[" in t, "{}" in t, "()" in t,
+             re.search(r"datetime64|timedelta64|complex", t), re.search(r"\d[eE][-+]?\d|\d\.\d", t), "\\" in t]
+    return any(bool(f) for f in feats)
+
+
 @mechanism("F10-reduce-nonlocal")
 def _f10(vio):
     rep = _report(vio)
